@@ -2666,8 +2666,9 @@ FROM (
                 f"ELSE {e_join_id} IS NOT NULL END"
             )
         elif then_join_id:
-            # then=dataset, else=scalar: filter when condition is true
-            builder.where(f"NOT ({cond_expr}) OR {then_join_id} IS NOT NULL")
+            # then=dataset, else=scalar: only a TRUE condition selects the dataset side; a FALSE or
+            # NULL condition selects the scalar, which always has a value (NOT (NULL) would drop the row).
+            builder.where(f"CASE WHEN {cond_expr} THEN {then_join_id} IS NOT NULL ELSE TRUE END")
         elif e_join_id:
             # then=scalar, else=dataset: filter when condition is false
             builder.where(f"({cond_expr}) OR {e_join_id} IS NOT NULL")
